@@ -1,3 +1,4 @@
+import os
 from pathlib import Path
 from contextlib import contextmanager
 import warnings
@@ -10,7 +11,7 @@ from .datadir import DataDir, create_datadir
 from .metadata import MetaData
 from .readcoderaggedarray import readcode, readcodefunc, \
     shapeindexexplanationtextraggedarray
-from .utils import wrap
+from .utils import wrap, product
 
 __all__ = ['RaggedArray', 'asraggedarray', 'create_raggedarray',
            'delete_raggedarray', 'truncate_raggedarray']
@@ -247,14 +248,7 @@ class RaggedArray:
             None
 
         """
-        with self.open_arrays() as ((iv, vv), (fdv, fdi)):
-            vlen = self._values.shape[0]
-            vlenincr, ilenincr = self._append(array, fdv, fdi, vlen)
-            self._values._update_len(lenincrease=vlenincr)
-            self._indices._update_len(lenincrease=ilenincr)
-            self._update_readmetxt()
-            self._update_arraydescr(len=len(self._indices),
-                                    size=self._values.size)
+        self.iterappend([array])
 
     def copy(self, path, dtype=None, accessmode='r', overwrite=False):
         """Copy darr to a different path, potentially changing its dtype.
@@ -345,19 +339,36 @@ class RaggedArray:
 
         """
 
+        if self._accessmode != 'r+':
+            raise OSError(f"Accesmode should be 'r+' "
+                          f"(now is '{self._accessmode}')")
+        error = None
         with self.open_arrays() as ((iv, vv), (fdv, fdi)):
             vlenincr = 0
             ilenincr = 0
             vlen = self._values.shape[0]
-            for a in arrayiterable:
-                vli, ili = self._append(a, fdv, fdi, vlen+vlenincr)
-                vlenincr += vli
-                ilenincr += ili
+            ilen = self._indices.shape[0]
+            try:
+                for a in arrayiterable:
+                    vli, ili = self._append(a, fdv, fdi, vlen+vlenincr)
+                    vlenincr += vli
+                    ilenincr += ili
+            except Exception as exception:
+                # remove what was written of the subarray that failed, keep
+                # the subarrays that were appended completely before it
+                error = exception
+                for ar, fd, n in ((self._values, fdv, vlen + vlenincr),
+                                  (self._indices, fdi, ilen + ilenincr)):
+                    fd.flush()
+                    os.truncate(ar._datapath,
+                                n * product(ar.shape[1:]) * ar.itemsize)
         self._values._update_len(lenincrease=vlenincr)
         self._indices._update_len(lenincrease=ilenincr)
         self._update_arraydescr(len=len(self._indices),
                                 size=self._values.size)
         self._update_readmetxt()
+        if error is not None:
+            raise error
 
     def readcode(self, language, abspath=False, basepath=None):
         """Generate code to read the array in a different language.
